@@ -22,13 +22,13 @@ def q1 : PassX := ⟨Isolation.Two.p1, []⟩
 def q2 : PassX := ⟨Isolation.Two.p2, []⟩
 def q3 : PassX := ⟨Isolation.Two.p3, []⟩
 def q4 : PassX := ⟨Isolation.Two.p4, Isolation.Two.xs4⟩
-def q5 : PassX := ⟨{ now := 5000, acc := 0, con := 0, soe := 0, envs := [{ fd := 2000, rev := 2, rk := 0, data := [], cap := 100 }] }, []⟩
+def q5 : PassX := ⟨{ now := 5000, acc := 0, con := [0], soe := [0], envs := [{ fd := 2000, rev := 2, rk := 0, data := [], cap := 100 }] }, []⟩
 def xs6 : List RxCall :=
   [{ pat := 1, subject := bstr "1 off\n", answer := some [(0, 6), (0, 1), (2, 5)] }, { pat := 2, subject := bstr "off", answer := none },
    { pat := 3, subject := bstr "off", answer := some [(0, 3)] }]
 def q6 : PassX :=
-  ⟨{ now := 6000, acc := 0, con := 0, soe := 0, envs := [{ fd := 2000, rev := 1, rk := 0, data := bstr "1 off\n", cap := 100 }] }, xs6⟩
-def qLate : PassX := ⟨{ now := 9000000, acc := 0, con := 0, soe := 0, envs := [] }, []⟩
+  ⟨{ now := 6000, acc := 0, con := [0], soe := [0], envs := [{ fd := 2000, rev := 1, rk := 0, data := bstr "1 off\n", cap := 100 }] }, xs6⟩
+def qLate : PassX := ⟨{ now := 9000000, acc := 0, con := [0], soe := [0], envs := [] }, []⟩
 
 theorem inv0 : Inv Isolation.Two.w0 := inv_init Isolation.Two.w0 rfl (by intro nd hnd; simp [Isolation.Two.w0] at hnd; subst hnd; rfl) (by decide) (by decide)
 
@@ -136,17 +136,17 @@ theorem finsL : runFinsX w1 (q2 :: ([q3] ++ [qLate])) 1 = [([65], .expfail)] := 
 theorem bufL : cL.toBuf = bstr ("001 2\r\npowerman> 308 A: action timed out waiting for expected response\r\n" ++
     "302 on:      \r\n302 off:     \r\n302 unknown: a1\r\n211 Query completed with errors\r\npowerman> ") := by decide +kernel
 
-/-! ### a `beacon` script without `expect`: the text of the previous query's match is used -/
+/-! ### a `beacon` script without `expect`: before fix e0ac8ce (F38) the text of the previous query's match was used; now nothing is -/
 namespace B
 def scripts : Nat → Option (List Stmt) := fun k =>
   if k == 2 then some Isolation.Two.statScript else if k == 21 then some [.setplugstate none 1 2 [(.on, 2), (.off, 3)]] else none
 def devB : Dev := { Isolation.Two.devA with scripts := scripts }
 def w0 : W := { Isolation.Two.w0 with devs := [([65], devB)] }
-def p2 : PassIn := { now := 2000, acc := 0, con := 0, soe := 0, envs := [{ fd := 1000, rev := 1, rk := 0, data := Isolation.Two.line, cap := 100 }] }
-def p3 : PassIn := { now := 3000, acc := 0, con := 0, soe := 0, envs := [{ fd := 2000, rev := 2, rk := 0, data := [], cap := 100 }] }
+def p2 : PassIn := { now := 2000, acc := 0, con := [0], soe := [0], envs := [{ fd := 1000, rev := 1, rk := 0, data := Isolation.Two.line, cap := 100 }] }
+def p3 : PassIn := { now := 3000, acc := 0, con := [0], soe := [0], envs := [{ fd := 2000, rev := 2, rk := 0, data := [], cap := 100 }] }
 /-- pass 5: client 1 sends `beacon a1`; nothing happens on the device's descriptor -/
 def q5 : PassX :=
-  ⟨{ now := 5000, acc := 0, con := 0, soe := 0, envs := [{ fd := 1000, rev := 1, rk := 0, data := bstr "beacon a1\n", cap := 100 }] },
+  ⟨{ now := 5000, acc := 0, con := [0], soe := [0], envs := [{ fd := 1000, rev := 1, rk := 0, data := bstr "beacon a1\n", cap := 100 }] },
    [{ pat := 2, subject := bstr "on", answer := some [(0, 2)] }]⟩
 /-- the `status a1` of client 1 has been answered `on` -/
 def w4 : W := runX w0 [q1, ⟨p2, []⟩, ⟨p3, []⟩, q4]
@@ -176,17 +176,15 @@ theorem hc6 : cliRec (runX w4 [q5]) 1 = some c6 := by
 theorem idle6 : c6.cmd = none := by
   have : c6.cmd.isNone = true := by decide +kernel
   cases h : c6.cmd <;> simp_all
-/-- the one write of the beacon query: made by the `beacon` action (script slot 21) of this command (arglist 2) — with the
-    text `on` cut from the subject `1 on`, which is the line the *status* query's `expect` had matched -/
-theorem hist5 : hist w4 [q5] k5.al =
-    [{ dev := [65], cid := 1, al := 2, com := 21, plug := [49], node := [97, 49], kind := .state .on, text := bstr "on",
-       subject := some (bstr "1 on\n") }] := by decide +kernel
-/-- the match register before the beacon query was accepted already holds that subject; the device's input buffer is
-    empty and stays empty; the pass brings no event for the device's descriptor -/
-theorem stale : (w4.devs.map fun nd => (nd.2.xmStr, nd.2.fromBuf)) = [(some (bstr "1 on\n"), [])] ∧
+/-- since fix e0ac8ce (F38) the beacon query makes no write: the match object was recycled when the status action left the
+    queue, so the `setplugstate` that opens the beacon script finds nothing to read -/
+theorem hist5 : hist w4 [q5] k5.al = [] := by decide +kernel
+/-- the match register before the beacon query was accepted is empty (recycled when the status action completed); the device's
+    input buffer is empty and stays empty; the pass brings no event for the device's descriptor -/
+theorem stale : (w4.devs.map fun nd => (nd.2.xmStr, nd.2.xmUsed, nd.2.fromBuf)) = [(none, false, [])] ∧
     ((runX w4 [q5]).devs.map fun nd => nd.2.fromBuf) = [[]] ∧ q5.p.envs.find? (·.fd == 2000) = none := by decide +kernel
 theorem buf6 : c6.toBuf.drop c5.toBuf.length =
-    bstr "302 on:      a1\r\n302 off:     \r\n302 unknown: \r\n103 Query complete\r\npowerman> " := by decide +kernel
+    bstr "302 on:      \r\n302 off:     \r\n302 unknown: a1\r\n103 Query complete\r\npowerman> " := by decide +kernel
 end B
 
 end Pm.Daemon.QRun.Ex
